@@ -1938,8 +1938,13 @@ reduces the cyclomatic complexity of stack.string() by handling the end-stage
 processing of a request for string representation of the receiver.
 */
 func (r stack) assembleStringStack(str []string, ot string, oc stackType) string {
-	// Padding char (or lack thereof)
-	pad := padValue(!r.positive(nspad), "")
+	// Padding char (or lack thereof). Note that padValue
+	// cannot be used here: it returns nothing for an empty
+	// value, which left the pad permanently empty.
+	var pad string
+	if !r.positive(nspad) {
+		pad = string(rune(32))
+	}
 
 	builder := newStringBuilder()
 
